@@ -3,11 +3,11 @@
 cd /verif
 run() { tools/seedcheck.sh "$@" >> target/logs/seedall.txt 2>&1; }
 : > target/logs/seedall.txt
-run C02 0 C02 --only c02_client_remove
-run C03 0 C03 --only c03_em_step_update
-run C06 0 C06 --only c06_new_wiring
-run C08 0 C08 --only c08_proc_delete
-run C09 0 C09 --only c09_store_veto_update
-run C15 0 C15 --only c15_ring_batches
-run C16 0 C16 --only c16_proc_update
-run C18 0 C18 --only c18_cache_isolation_remove
+run C02 4 C02 --only c02_client_remove
+run C03 4 C03 --only c03_em_step_update
+run C06 4 C06 --only c06_new_wiring
+run C08 4 C08 --only c08_proc_delete
+run C09 4 C09 --only c09_store_veto_update
+run C15 4 C15 --only c15_ring_batches
+run C16 4 C16 --only c16_proc_update
+run C18 4 C18 --only c18_cache_isolation_remove
